@@ -159,7 +159,13 @@ Definition step2 (w : world) (op : list (list Z)) : world * result :=
           let d0 := d_make_empty cellv n' nf' bl None in
           let overlap := existsb (fun p => 1 <? zlen (d_vals_at cellv dcell (map (fun s => (k_valid (h_k s), h_d s)) ss) p))
                                  (zrange 0 (d_npix cellv du)) in
-          (wset w hout (mkh kout (x_update kout m0 URepl (d_valid_pvs kout du) false)
+          (* L1: the routine's own data flow (Ops.cat_mem, proved in CatRefine.v to give the value of the
+             last valid input at every pixel); L0: the dense union *)
+          let ins := map h_m ss in
+          let vk := k_valid kout in
+          let cp := cat_cov_pix cellv vk dcell n' nf' ins in
+          (wset w hout (mkh kout (cat_mem cellv vk dcell v_add v_or v_and (k_zero kout) (k_is_sent kout)
+                                          (k_sent_nonzero kout) n' nf' bl ins cp)
                                  (x_dupdate kout d0 URepl (d_valid_pvs kout du) false)),
            [ok1; [if overlap then 1 else 0]])
         end
@@ -338,7 +344,13 @@ Definition step2 (w : world) (op : list (list Z)) : world * result :=
 (* stateless evaluation of the bit-packed array model (Packed.v):
    [40];[ds de si st];[has_a a];[has_b b]  -> slice view or raised
    [41];[ds de si st]                       -> first/middle/last descriptor
-   [42];[x]                                 -> population-count table entry *)
+   [42];[x]                                 -> population-count table entry
+   [43];[0 nd si st];[opcode];data;other    -> bytes after the bulk operation (opcode 0 set, 1 and, 2 or,
+                                               3 xor, 4 invert; other = one byte (boolean operand: 255 / 0)
+                                               or the aligned operand's bytes)
+   [44];[kind];locs;data                    -> bytes after set (0) / clear (1) of the bits at locs, or the
+                                               tested bits (2), or set locs then clear the locs of group 4 (3);
+                                               locs already shifted by the start index *)
 Definition view_of (g : list Z) : pview := mkview (znth 0 g 0) (znth 0 g 1) (znth 0 g 2) (znth 0 g 3).
 Definition packed_monitor (op : list (list Z)) : result :=
   let code := gz op 0 0 in
@@ -352,7 +364,18 @@ Definition packed_monitor (op : list (list Z)) : result :=
   else if code =? 41 then
     let d := extract_fml (view_of (grp op 1)) in
     [ok1; [f_lo d; f_hi d; m_lo d; m_hi d; l_lo d; l_hi d]]
-  else [ok1; [lut_entry (gz op 1 0)]].
+  else if code =? 42 then [ok1; [lut_entry (gz op 1 0)]]
+  else if code =? 43 then
+    let o := match gz op 2 0 with 0 => BSet | 1 => BAnd | 2 => BOr | 3 => BXor | _ => BInv end in
+    let other := grp op 4 in
+    let ob := if zlen other =? 1 then (fun _ : Z => znth 0 other 0) else (fun j => znth 0 other j) in
+    [ok1; bulk_op o (view_of (grp op 1)) (grp op 3) ob]
+  else
+    let k := gz op 1 0 in
+    if k =? 0 then [ok1; set_bits (grp op 2) (grp op 3)]
+    else if k =? 1 then [ok1; clear_bits (grp op 2) (grp op 3)]
+    else if k =? 3 then [ok1; clear_bits (grp op 4) (set_bits (grp op 2) (grp op 3))]
+    else [ok1; map (fun p => if test_bit_at (grp op 3) p then 1 else 0) (grp op 2)].
 
 (* random points (healSparseRandoms.py) as functions of the generator's draws *)
 Definition fast_pixels (shift : Z) (coarse sub : list Z) : list Z :=
